@@ -1,0 +1,46 @@
+//go:build verif
+
+// Contracts for govc (contract-based deductive verification); comments only.
+package resources
+
+// ---- assumed models of k8s library methods (resource.Quantity is an opaque Real) ----
+
+//@ func (*k8s.io/apimachinery/pkg/api/resource.Quantity).Add
+//@   trusted
+//@   note library method without body in the loaded program; Quantity modelled as an exact real number (A-QTY)
+//@   requires q != nil
+//@   modifies *q
+//@   ensures *q == old(*q) + y
+//@ end
+
+//@ func (k8s.io/apimachinery/pkg/api/resource.Quantity).DeepCopy
+//@   trusted
+//@   note library method without body; a Quantity value copy denotes the same number
+//@   pure
+//@   ensures result == q
+//@ end
+
+//@ func (k8s.io/api/core/v1.ResourceList).DeepCopy
+//@   trusted
+//@   note generated deepcopy of map[ResourceName]Quantity in k8s.io/api (library, no body loaded)
+//@   fresh
+//@   ensures (in == nil) == (result == nil)
+//@   ensures forall k v1.ResourceName :: (k in result) == (k in in)
+//@   ensures forall k v1.ResourceName :: result[k] == in[k]
+//@ end
+
+// Property C20: "... equal the sums over its pods ..." - the sum of two resource lists is the
+// pointwise sum (a resource absent from a list counts as 0), and the operands are not modified.
+//@ func SumResources
+//@   props C20
+//@   fresh
+//@   loop 1
+//@     invariant total != nil && total != left && total != right && fresh(total)
+//@     invariant forall k v1.ResourceName :: (k in total) == ((k in left) || ((k in right) && (k in visited)))
+//@     invariant forall k v1.ResourceName :: total[k] == left[k] + ite(k in visited, right[k], 0.0)
+//@     # frame of pre-existing Quantity cells (the loop only writes the local `sum`)
+//@     invariant forall p *resource.Quantity :: old(allocated(p)) ==> *p == old(*p)
+//@   ensures [nonnil] result != nil
+//@   ensures [keys] forall k v1.ResourceName :: (k in result) == ((k in left) || (k in right))
+//@   ensures [sum] forall k v1.ResourceName :: result[k] == left[k] + right[k]
+//@ end
